@@ -552,6 +552,8 @@ pub fn run(ctx: &Ctx) -> i32 {
             bound.push(format!("all 2-leaf trees over {} leaves x 3 operators x negation of each operand and of the root", mid.len()));
             acc = acc.merge(all_trees_exact(3, &c16, false, false));
             bound.push("all 3-leaf trees over a 16-leaf core".into());
+            acc = acc.merge(all_trees_exact(3, &c8, true, false));
+            bound.push("all 3-leaf trees over an 8-leaf core with every negation of leaves and root".into());
         }
         Tier::Thorough => {
             acc = acc.merge(all_trees_exact(2, &full, true, true));
